@@ -41,9 +41,31 @@ func (c *linkClient) NegativeAcknowledge(ctx context.Context, in *proto.Nack, op
 // primary for a symbolic probe key.
 func VerifC14_DataPathConverges() {
 	pcfg := config.NewDefaultConfig(vsym.Dir() + "/primary")
+	// the primary's own tuning must not decide whether replicas converge: defaults; a log that is not forced to
+	// disk at every write (what it hands to replicas must not depend on that); a batch budget of 1 KB with values
+	// that alone exceed it
+	variant := vsym.IntRange("primaryTuning", 0, 2)
+	if variant == 1 {
+		pcfg.WALSyncMode = config.SyncNone
+	}
 	sm, err := storage.NewManager(pcfg, stats.NewAtomicCollector())
 	vsym.Assert(err == nil, "primary NewManager failed")
-	p := c15Primary(sm)
+	pc := DefaultPrimaryConfig()
+	pc.EnableCompression = false
+	pc.CompressionCodec = proto.CompressionCodec_NONE
+	if variant == 2 {
+		pc.MaxBatchSizeKB = 1
+	}
+	p, err := NewPrimary(sm.GetWAL(), pc)
+	vsym.Assert(err == nil, "NewPrimary failed")
+	value := func() []byte {
+		if variant != 2 {
+			return vsym.Bytes("v", 1)
+		}
+		b := make([]byte, 1100)
+		b[0], b[len(b)-1] = vsym.Byte("vb"), vsym.Byte("vb")
+		return b
+	}
 	re, err := engine.NewEngineFacade(vsym.Dir() + "/replica")
 	vsym.Assert(err == nil, "replica engine open failed")
 	// the replica's own tuning must not decide whether it converges: "maximum batch size to process at once" at its
@@ -96,7 +118,7 @@ func VerifC14_DataPathConverges() {
 		}
 		switch vsym.IntRange("op", 0, 3) {
 		case 0:
-			vsym.Assert(sm.Put(K[vsym.IntRange("ki", 0, 1)], vsym.Bytes("v", 1)) == nil, "Put failed")
+			vsym.Assert(sm.Put(K[vsym.IntRange("ki", 0, 1)], value()) == nil, "Put failed")
 		case 1:
 			vsym.Assert(sm.Delete(K[vsym.IntRange("ki", 0, 1)]) == nil, "Delete failed")
 		case 2:
@@ -126,7 +148,7 @@ func VerifC14_DataPathConverges() {
 	vsym.Observe("replicaFound", rerr == nil)
 	vsym.Assert((perr == nil) == (rerr == nil), "after the link is drained the replica disagrees with the primary on whether a key exists")
 	if perr == nil && rerr == nil {
-		vsym.Assert(vsym.EqBytes(pv, rv), "after the link is drained the replica holds a different value than the primary")
+		vsym.Assert(len(pv) == len(rv) && vsym.EqBytes(pv, rv), "after the link is drained the replica holds a different value than the primary")
 	}
 	vsym.Reach("done")
 }
